@@ -106,6 +106,9 @@ func c07CLICase(a vh.Args, r *vh.Result, c *c07Case) error {
 	}
 	has := func(opt string) bool { return strings.Contains(c.Variant, "/"+opt) }
 	inplace, fresh, stats, seeded := has("inplace"), has("fresh"), has("print-stats"), has("seed")
+	symlink := has("symlink") // the destination path is a symlink to a regular file in another directory
+	realFile := filepath.Join(work, "real", "target")
+	var realBefore *c07Stat
 	failing := strings.HasPrefix(c.Variant, "http500")
 	sig := syscall.SIGINT
 	if strings.HasPrefix(c.Variant, "sigterm") {
@@ -175,7 +178,21 @@ func c07CLICase(a vh.Args, r *vh.Result, c *c07Case) error {
 		args = append(args, idxFile, dest)
 		if !fresh {
 			prior := []byte("previous content of the destination, " + strconv.Itoa(len(in.Blob)) + " bytes expected after extract\n")
-			if err := os.WriteFile(dest, prior, 0644); err != nil {
+			if symlink {
+				if err := os.MkdirAll(filepath.Dir(realFile), 0755); err != nil {
+					return err
+				}
+				if err := os.WriteFile(realFile, prior, 0644); err != nil {
+					return err
+				}
+				if err := os.Symlink(realFile, dest); err != nil {
+					return err
+				}
+				var err error
+				if realBefore, err = c07StatFile(realFile); err != nil {
+					return err
+				}
+			} else if err := os.WriteFile(dest, prior, 0644); err != nil {
 				return err
 			}
 			var err error
@@ -390,6 +407,20 @@ func c07CLICase(a vh.Args, r *vh.Result, c *c07Case) error {
 		case !fresh && (after.Ino != before.Ino || after.Size != before.Size || !bytes.Equal(after.Data, before.Data)):
 			r.Fail("predicate", "cli-extract/destination-touched-on-failure", fmt.Sprintf("desync extract exited %d but the destination changed (inode %d->%d, size %d->%d)", rc, before.Ino, after.Ino, before.Size, after.Size), c)
 		}
+		if symlink && realBefore != nil {
+			// neither the link nor the file behind it may change
+			if li, err := os.Lstat(dest); err != nil || li.Mode()&os.ModeSymlink == 0 {
+				r.Fail("predicate", "cli-extract/destination-touched-on-failure", fmt.Sprintf("desync extract exited %d and the destination is no longer the symlink it was", rc), c)
+			}
+			ra, rerr := c07StatFile(realFile)
+			if rerr != nil || ra.Ino != realBefore.Ino || ra.Size != realBefore.Size || !bytes.Equal(ra.Data, realBefore.Data) {
+				sz := int64(-1)
+				if ra != nil {
+					sz = ra.Size
+				}
+				r.Fail("predicate", "cli-extract/file-behind-symlink-touched-on-failure", fmt.Sprintf("desync extract (n=%d, %s at chunk request %d) exited %d but the file the destination symlink points to changed (size %d->%d)", c.N, c.Variant, c.K, rc, realBefore.Size, sz), c)
+			}
+		}
 		ents, _ := os.ReadDir(filepath.Join(work, "out"))
 		for _, e := range ents {
 			if e.Name() != "blob" {
@@ -433,7 +464,8 @@ func c07CLI(a vh.Args, r *vh.Result, rng *vh.Rand) error {
 	}
 	// extract: small explicit chunks
 	exVariants := []string{"sigint", "sigterm", "sigint/inplace", "sigterm/fresh", "http500", "http500/fresh",
-		"sigint/print-stats", "sigterm/print-stats/fresh", "sigint/print-stats/inplace", "http500/print-stats", "sigterm/seed", "sigint/seed/print-stats"}
+		"sigint/print-stats", "sigterm/print-stats/fresh", "sigint/print-stats/inplace", "http500/print-stats", "sigterm/seed", "sigint/seed/print-stats",
+		"sigint/symlink", "sigterm/symlink", "http500/symlink"}
 	ks := []int{1, 2, 3, 5, 9, 17, nch, nch + 5}
 	ns := []int{1, 4}
 	if thorough {
